@@ -1,8 +1,275 @@
 import PyPhysim.Model.Proto
-open PyPhysim.Proto
+import PyPhysim.Model.C17
+import PyPhysim.Model.C17Classes
+open PyPhysim.Proto PyPhysim.C17
 
--- stub: replaced when the C17 model is written
-def handle : List String → String
+/-!
+Line protocol of the C17 model driver.  Values travel as space separated prefix
+tokens (see `harness/props/c17.py: tok`):
+
+  N | T | F | i<int> | f<p>/<q> | fz | f+inf | f-inf | fnan | s<cp>.<cp>… |
+  ni<0|1>:<width>:<int> | nf<width>:<p>/<q>|z|+inf|-inf|nan | nbT | nbF |
+  L<k> v…  | S<k> v… | A<dtype>:<d1>x<d2>… data | D<k> (skey v)…
+-/
+
+def parseFloatBody (s : String) : Option PyFloat :=
+  if s == "z" then some .negZero
+  else if s == "+inf" then some .posInf
+  else if s == "-inf" then some .negInf
+  else if s == "nan" then some .nan
+  else match s.splitOn "/" with
+    | [p, q] => do
+        let i ← p.toInt?
+        let n ← q.toNat?
+        some (.fin i n)
+    | _ => none
+
+def parseStrBody (s : String) : Option String :=
+  if s.isEmpty then some ""
+  else do
+    let cps ← (s.splitOn ".").mapM String.toNat?
+    some (String.ofList (cps.map Char.ofNat))
+
+partial def parseVal : List String → Option (PyVal × List String)
+  | [] => none
+  | t :: rest =>
+    if t == "N" then some (.none, rest)
+    else if t == "T" then some (.bool true, rest)
+    else if t == "F" then some (.bool false, rest)
+    else if t.startsWith "ni" then
+      match ((t.drop 2).toString.splitOn ":") with
+      | [sg, w, i] => do
+          let w ← w.toNat?
+          let i ← i.toInt?
+          some (.npint (sg == "1") w i, rest)
+      | _ => none
+    else if t.startsWith "nf" then
+      match ((t.drop 2).toString.splitOn ":") with
+      | [w, b] => do
+          let w ← w.toNat?
+          let f ← parseFloatBody b
+          some (.npfloat w f, rest)
+      | _ => none
+    else if t == "nbT" then some (.npbool true, rest)
+    else if t == "nbF" then some (.npbool false, rest)
+    else if t.startsWith "i" then (t.drop 1).toString.toInt?.map (fun i => (.int i, rest))
+    else if t.startsWith "f" then (parseFloatBody (t.drop 1).toString).map (fun f => (.float f, rest))
+    else if t.startsWith "s" then (parseStrBody (t.drop 1).toString).map (fun s => (.str s, rest))
+    else if t.startsWith "L" then do
+      let k ← (t.drop 1).toString.toNat?
+      let (xs, rest) ← parseMany k rest
+      some (.list xs, rest)
+    else if t.startsWith "S" then do
+      let k ← (t.drop 1).toString.toNat?
+      let (xs, rest) ← parseMany k rest
+      some (.set xs, rest)
+    else if t.startsWith "A" then
+      match ((t.drop 1).toString.splitOn ":") with
+      | [dt, sh] => do
+          let shape ← (fields sh "x").mapM String.toNat?
+          let (d, rest) ← parseVal rest
+          some (.ndarray dt shape d, rest)
+      | _ => none
+    else if t.startsWith "D" then do
+      let k ← (t.drop 1).toString.toNat?
+      let (kvs, rest) ← parseKVs k rest
+      some (.dict kvs, rest)
+    else none
+where
+  parseMany : Nat → List String → Option (List PyVal × List String)
+    | 0, rest => some ([], rest)
+    | k + 1, toks => do
+        let (v, rest) ← parseVal toks
+        let (vs, rest) ← parseMany k rest
+        some (v :: vs, rest)
+  parseKVs : Nat → List String → Option (List (String × PyVal) × List String)
+    | 0, rest => some ([], rest)
+    | k + 1, toks => do
+        let (kv, rest) ← parseVal toks
+        let (v, rest) ← parseVal rest
+        let (r, rest) ← parseKVs k rest
+        match kv with
+        | .str s => some ((s, v) :: r, rest)
+        | _ => none
+
+def showFloatBody : PyFloat → String
+  | .fin n d => toString n ++ "/" ++ toString d
+  | .negZero => "z" | .posInf => "+inf" | .negInf => "-inf" | .nan => "nan"
+
+def showStr (s : String) : String := "s" ++ ".".intercalate (s.toList.map (fun c => toString c.toNat))
+
+partial def showVal : PyVal → String
+  | .none => "N"
+  | .bool b => if b then "T" else "F"
+  | .int i => "i" ++ toString i
+  | .float f => "f" ++ showFloatBody f
+  | .str s => showStr s
+  | .npint sg w i => "ni" ++ (if sg then "1" else "0") ++ ":" ++ toString w ++ ":" ++ toString i
+  | .npfloat w f => "nf" ++ toString w ++ ":" ++ showFloatBody f
+  | .npbool b => if b then "nbT" else "nbF"
+  | .list xs => " ".intercalate (("L" ++ toString xs.length) :: xs.map showVal)
+  | .set xs =>
+      let ts := (xs.map showVal).mergeSort (fun a b => !(decide (b < a)))
+      " ".intercalate (("S" ++ toString xs.length) :: ts)
+  | .ndarray dt sh d => "A" ++ dt ++ ":" ++ "x".intercalate (sh.map toString) ++ " " ++ showVal d
+  | .dict kvs => " ".intercalate (("D" ++ toString kvs.length) :: kvs.map (fun (k, v) => showStr k ++ " " ++ showVal v))
+
+def showErr : Err → String
+  | .py e => "error:" ++ toString e
+  | .unmodelled => "unmodelled"
+
+def showR {α : Type} (f : α → String) : R α → String
+  | .ok a => "ok " ++ f a
+  | .error e => showErr e
+
+def b01 (b : Bool) : String := if b then "1" else "0"
+
+/-! composite inputs are sent as plain values and converted here -/
+
+def nodeOfVal : PyVal → Option Node
+  | .list [.dict ps, .list us, .int i] => (strList us).map (fun names => { parameters := ps, unpacked := names, unpackIndex := i })
+  | _ => none
+
+def chainOfVal : PyVal → Option Chain
+  | .list xs => xs.mapM nodeOfVal
+  | _ => none
+
+def resultOfVal : PyVal → Option Result
+  | .list [.str name, .int t, value, total, rs, rq, nu, .bool acc, .list vl, .list tl] =>
+      some { name := name, typeCode := t, value := value, total := total, resultSum := rs, resultSqSum := rq,
+             numUpdates := nu, acc := acc, valueList := vl, totalList := tl }
+  | _ => none
+
+def resultKVsOfVal : List (String × PyVal) → Option (List (String × List Result))
+  | [] => some []
+  | (n, .list rs) :: rest => do
+      let rs ← rs.mapM resultOfVal
+      let r ← resultKVsOfVal rest
+      some ((n, rs) :: r)
+  | _ => none
+
+def simOfVal : PyVal → Option SimResults
+  | .list [.dict rd, ch, rr, ofn, cr] => do
+      let results ← resultKVsOfVal rd
+      let params ← chainOfVal ch
+      some { results := results, params := params, runnedReps := rr, originalFilename := ofn, currentRep := cr }
+  | _ => none
+
+def segsOfVal : PyVal → Option (List Seg)
+  | .list xs => xs.mapM (fun x => match x with
+      | .list [.str "lit", .str s] => some (Seg.lit s)
+      | .list [.str "field", .str s] => some (Seg.field s)
+      | _ => none)
+  | _ => none
+
+/-- float renderings supplied by the harness (CPython/numpy `repr`): list of
+    `[width, float, text]` -/
+def frOfVal (tbl : PyVal) : Nat → PyFloat → String := fun w f =>
+  match tbl with
+  | .list xs =>
+    (xs.findSome? (fun x => match x with
+      | .list [.int w', .float f', .str s] => if w' == (w : Int) && f' == f then some s else none
+      | _ => none)).getD "?"
+  | _ => "?"
+
+def wfSim (s : SimResults) : Bool :=
+  wfChain s.params && wf s.runnedReps && wf s.originalFilename && wf s.currentRep
+
+def goodResultB (r : Result) : Bool :=
+  if r.typeCode == 3 then
+    match r.value, r.total, r.numUpdates with
+    | .ndarray dt [n] (.list cs), .int t, .int nu =>
+      match intList cs with
+      | some counts => dt == "int64" && n == counts.length && counts.all (· ≥ 0)
+          && t == ((natSum (counts.map Int.toNat) : Nat) : Int) && nu == t && wfList r.valueList
+          && r.totalList.isEmpty
+      | none => false
+    | _, _, _ => false
+  else wfResult r
+
+def handle (toks : List String) : String :=
+  match toks with
+  | "json" :: rest =>
+    match parseVal rest with
+    | some (v, []) => "wf=" ++ b01 (wf v) ++ " " ++ showR showVal (dec (enc v))
+    | _ => "bad-op"
+  | "enc" :: rest =>
+    match parseVal rest with
+    | some (v, []) => showVal (enc v).toVal
+    | _ => "bad-op"
+  | "norm" :: rest =>
+    match parseVal rest with
+    | some (v, []) => showVal (norm v)
+    | _ => "bad-op"
+  | "params" :: fuel :: rest =>
+    match fuel.toNat?, parseVal rest with
+    | some fuel, some (v, []) =>
+      match chainOfVal v with
+      | some c => "wf=" ++ b01 (wfChain c) ++ " " ++ showR (fun c => showVal (paramsToDict c)) (paramsFromJson fuel (paramsToJson c))
+      | none => "bad-op"
+    | _, _ => "bad-op"
+  | "paramsenc" :: rest =>
+    match parseVal rest with
+    | some (v, []) =>
+      match chainOfVal v with
+      | some c => showVal (paramsToJson c).toVal
+      | none => "bad-op"
+    | _ => "bad-op"
+  | "result" :: rest =>
+    match parseVal rest with
+    | some (v, []) =>
+      match resultOfVal v with
+      | some r => "good=" ++ b01 (goodResultB r) ++ " " ++ showR (fun r => showVal (resultToDict r)) (resultFromJson (resultToJson r))
+      | none => "bad-op"
+    | _ => "bad-op"
+  | "resultenc" :: rest =>
+    match parseVal rest with
+    | some (v, []) =>
+      match resultOfVal v with
+      | some r => showVal (resultToJson r).toVal
+      | none => "bad-op"
+    | _ => "bad-op"
+  | "sim" :: fuel :: rest =>
+    match fuel.toNat?, parseVal rest with
+    | some fuel, some (v, []) =>
+      match simOfVal v with
+      | some s => "wf=" ++ b01 (wfSim s) ++ " " ++ showR (fun s => showVal (simToDict s)) (simFromJson fuel (simToJson s))
+      | none => "bad-op"
+    | _, _ => "bad-op"
+  | "simenc" :: rest =>
+    match parseVal rest with
+    | some (v, []) =>
+      match simOfVal v with
+      | some s => showVal (simToJson s).toVal
+      | none => "bad-op"
+    | _ => "bad-op"
+  | "choice" :: rest =>
+    -- L4: name, acc, n, ops
+    match parseVal rest with
+    | some (.list [.str name, .bool acc, .int n, .list ops], []) =>
+      showR (fun c => showVal (resultToDict c.toResult)) (runChoice (choiceInit name acc n.toNat) ops)
+    | _ => "bad-op"
+  | "fname" :: rest =>
+    -- L4: env dict, template text, segments, float renderings
+    match parseVal rest with
+    | some (.list [.dict env, .str txt, segs, tbl], []) =>
+      match segsOfVal segs with
+      | some sg => showR showStr (getFilename (frOfVal tbl) env txt sg)
+      | none => "bad-op"
+    | _ => "bad-op"
+  | "file" :: fuel :: rest =>
+    -- L6: sim, template text (without extension), segments, extension, float renderings, load extension
+    match fuel.toNat?, parseVal rest with
+    | some fuel, some (.list [sv, .str txt, segs, .str ext, tbl], []) =>
+      match simOfVal sv, segsOfVal segs with
+      | some s, some sg =>
+        match saveToFile (frOfVal tbl) [] s txt sg ext with
+        | .ok (st, s', f) =>
+          "ok name=" ++ showStr (f.stem ++ f.ext) ++ " orig=" ++ showVal s'.originalFilename ++ " loaded=" ++
+            showR (fun s => showVal (simToDict s)) (loadFromFile fuel st f)
+        | .error e => showErr e
+      | _, _ => "bad-op"
+    | _, _ => "bad-op"
   | _ => "bad-op"
 
 def main : IO Unit := runDriver handle
